@@ -66,6 +66,7 @@ class Extract:
         self.ghost_items = []
         self.contract_only = False   # T8: keep signature + contract, drop the body (callee stub)
         self.verifier_attrs = []
+        self.inherit = []   # T11: (method, relpath, trait anchor)
 
 
 class Block:
@@ -173,6 +174,13 @@ def parse_unit(path, _depth=0, contract_only=False):
                     if a not in ('#[verifier::loop_isolation(false)]', '#[verifier::allow_complex_invariants]') and not re.fullmatch(r'#\[verifier::reject_recursive_types\(\w+\)\]', a):
                         raise UnitError('%s:%d: verifier attribute not allowed: %s' % (path, ln, a))
                     ext.verifier_attrs.append(a)
+            elif key == 'inherit':
+                # `@ inherit <method> from <relpath> :: trait <Name>` (T11): when the impl block does not define <method>, Rust uses the
+                # provided (default) method of the trait; its text is sliced from the trait and verified in the impl's place
+                m_ = re.match(r'(\w+)\s+from\s+(\S+)\s+::\s+(trait\s+\w+)\s*$', rest)
+                if not m_:
+                    raise UnitError('%s:%d: bad inherit directive' % (path, ln))
+                ext.inherit.append((m_.group(1), m_.group(2), m_.group(3)))
             elif key == 'contract-only':
                 ext.contract_only = True
             elif key == 'verify-body':
@@ -399,6 +407,37 @@ def build_item(repo, ext, unit_path):
     is_container = ext.anchor.startswith('impl') or ext.anchor.startswith('trait')
     edits = []
     fn_spans = {}
+    inherited = []
+    if is_container and ext.inherit:
+        bo = Source('item', text).body_open(0, len(text))
+        bc = match_close(text, code, bo)
+        for (meth, trel, tanchor) in ext.inherit:
+            if re.search(r'\bfn\s+%s\b' % re.escape(meth), ''.join(ch if c else ' ' for ch, c in zip(text[bo:bc], code[bo:bc]))):
+                continue
+            tpath = os.path.join(repo, trel)
+            if not os.path.exists(tpath):
+                raise AnchorLost('file missing: ' + trel)
+            tsrc_text = open(tpath).read()
+            tsrc = Source(trel, tsrc_text)
+            ts, te = tsrc.item_span(header_regex(tanchor))
+            ttext = tsrc_text[ts:te]
+            tcode = code_mask(ttext)
+            mm = re.search(r'\bfn\s+%s\b' % re.escape(meth), ''.join(ch if c else ' ' for ch, c in zip(ttext, tcode)))
+            if not mm:
+                raise AnchorLost('method %s not found in %s nor in %s' % (meth, ext.anchor, tanchor))
+            parts_ = fn_parts(ttext, tcode, mm.start())
+            if not parts_['has_body']:
+                raise AnchorLost('method %s not found in %s and %s gives no default body' % (meth, ext.anchor, tanchor))
+            fe_ = match_close(ttext, tcode, parts_['end_sig']) + 1
+            mtext = ttext[mm.start():fe_]
+            ins = '\n    // T11: not overridden in this impl - the provided method of `%s` (%s:%d) is what runs\n    %s\n' % (
+                tanchor, trel, tsrc.line_of(ts + mm.start()), mtext)
+            text = text[:bc] + ins + text[bc:]
+            origin = origin[:bc] + [None] * len(ins) + origin[bc:]
+            code = code_mask(text)
+            bc = match_close(text, code, bo)
+            inherited.append({'method': meth, 'from': '%s :: %s' % (trel, tanchor), 'line': tsrc.line_of(ts + mm.start()), 'sha256': hashlib.sha256(mtext.encode()).hexdigest()[:16]})
+            rules.append('T11')
     if is_container:
         bo = Source('item', text).body_open(0, len(text))
         bc = match_close(text, code, bo)
@@ -644,6 +683,7 @@ def build_item(repo, ext, unit_path):
         'omitted_methods': omitted,
         'inserted': inserted,
         'lost_annotations': lost,
+        'inherited_methods': inherited,
         'dropped': drop_report,
         'functions': sorted(fn_spans.keys() - set(omitted)) if fn_spans else [],
         'props': ext.props,
